@@ -48,7 +48,8 @@ _ID_POOLS = (
 
 
 def _utt_id(case, i):
-    return _ID_POOLS[case.get("ids", 0) % len(_ID_POOLS)][i]
+    pool = _ID_POOLS[case.get("ids", 0) % len(_ID_POOLS)]
+    return pool[i] if i < len(pool) else "u%04d" % i  # (maps with hundreds of utterances)
 
 
 # --file-prefix / --file-suffix of the case being judged (set by _setup; one case at a time per process)
@@ -333,6 +334,11 @@ def _grid(tier):
     nmax = 5 if tier == "thorough" else 3
     counts = range(1, nmax + 1) if tier == "thorough" else (3,)
     lens_all = [40, 25, 9, 64, 17]
+    # a map of 300 utterances interrupted late: few are pending on resume, at positions beyond 256 (any per-utterance
+    # bookkeeping held in a narrow integer type wraps there)
+    for k, phase, kind, fresh in ((270, "before_save", "hard", None), (299, "after_save", "soft", 3)) if tier == "thorough" else ((270, "before_save", "hard", None),):
+        yield {"lens": [9, 3, 17] * 100, "seed": 5, "ids": 1, "blank_lines": False, "dither": 1.0, "comp": False,
+               "crash": {"k": k, "phase": phase, "kind": kind}, "workers": 0, "delays": None, "fresh": fresh, "file_prefix": None, "file_suffix": None}
     for n in counts:
         for k in range(n):
             for phase in cli_crash.PHASES:
